@@ -13,6 +13,7 @@ Model: `Model/Ledger.lean` (TR, TRO, CALL coin forwarding, RET, MINT, BURN, SMO 
 `update_outputs`). Theorems quantify over every well-formed ledger state and every history of ops.
 -/
 import FuelVerif.Lemmas.Ledger
+import FuelVerif.Gen.Ledger
 namespace FuelVerif.Ledger
 
 /-- **every op conserves every asset**: a successful TR / TRO / CALL / RET / MINT / BURN / SMO changes the
@@ -401,6 +402,33 @@ def ReceiptMatchesMovementStatement : Prop :=
   ∀ (s t : Ledger) (op : Op) (r : Rcpt), WF s → applyOp s op = .ok (t, some r) →
     ∀ dest amt asset, (op = .tr dest amt asset ∨ op = .call dest amt asset) → s.ctx.head? ≠ some dest →
       srcBalance t asset + amt = srcBalance s asset ∧ balance t dest asset = balance s dest asset + amt
+
+/-! ### failure order: the model follows the order of the fallible steps in the Rust text -/
+
+/-- obligation on the generated step sequences (regenerated from contract.rs / flow.rs / blockchain.rs on
+every run): the order the model is transcribed in. A reordering or a dropped step in the Rust text breaks this. -/
+theorem failure_order_matches_code :
+    Gen.trOrder = ["inputs", "zero", "debit", "credit", "receipt"] ∧
+    Gen.troOrder = ["zero", "debit", "var", "receipt"] ∧
+    Gen.callOrder = ["size", "debit", "inputs", "credit", "receipt"] ∧
+    Gen.mintOrder = ["add", "receipt"] ∧ Gen.burnOrder = ["sub", "receipt"] ∧ Gen.smoOrder = ["debit", "receipt"] := by
+  decide
+
+/-- … and the model realises that order, for every state: TR tests the input-contract set first, then the zero
+amount, then debits; CALL looks the callee's code up first and debits the sender *before* the input-contract
+test (DESIGN F8: an unlisted callee that exists and an insufficient balance report NotEnoughBalance). -/
+theorem failure_order_model (s : Ledger) (dest amt a : Nat) :
+    (¬ dest ∈ s.cids → applyOp s (.tr dest amt a) = .error .contractNotInInputs) ∧
+    (dest ∈ s.cids → amt = 0 → applyOp s (.tr dest amt a) = .error .transferZeroCoins) ∧
+    (amt = 0 → applyOp s (.tro 0 0 amt a) = .error .transferZeroCoins) ∧
+    (¬ dest ∈ s.code → applyOp s (.call dest amt a) = .error .contractNotFound) ∧
+    (dest ∈ s.code → ∀ e, debit s a amt = .error e → applyOp s (.call dest amt a) = .error e) := by
+  refine ⟨?_, ?_, ?_, ?_, ?_⟩
+  · intro h; simp [applyOp, h]
+  · intro h hz; simp [applyOp, h, hz]
+  · intro hz; simp [applyOp, hz]
+  · intro h; simp [applyOp, h]
+  · intro h e he; simp [applyOp, h, he]
 
 /-! ### non-vacuity -/
 
